@@ -166,6 +166,11 @@ func runControls(dir string) error {
 	expect("modref-globals", "BadWritesGlobal", gw)
 	expect("modref-result-globals", "GoodFreshNull", len(m.ResultGlobals(fns["GoodFreshNull"])) > 0)
 	expect("modref-result-globals", "BadSharedNull", len(m.ResultGlobals(fns["BadSharedNull"])) > 0)
+	// decode destinations
+	for _, n := range []string{"goodDecodeFresh", "goodDecodeReset", "badDecodeShared"} {
+		_, bad := staleDestinations(fns[n])
+		expect("decode-destination", n, len(bad) > 0)
+	}
 	// PANICREACH
 	for _, n := range []string{"GoodTotal", "BadReachesPanic"} {
 		reach := eng.ReachFrom(p, []*ssa.Function{fns[n]})
